@@ -1,5 +1,12 @@
 #!/usr/bin/env python3
-"""Function translator (G2): straight-line / constant-bound Rust functions of /repo  ->  Lean definitions
+"""FORK NOTE: this file is a fork of translator/funcs.py (same baseline) that carries the extensions for large
+key-dependent state (array parameters kept as one `Array` argument with bounded data-dependent reads), `byteorder`, typenum and
+primitive-trait dispatch (RC5's `Word`), and the BelT wide block.  It was developed in parallel with the data-dependent-`if` and the
+Kuznyechik-intrinsics extensions of funcs.py; the two sets of changes overlap textually (both add an upper-bound attribute to
+values) and were not merged for lack of time.  translate.py runs it ONLY for Cipher_Blowfish, Cipher_Rc5, Keys_Rc5 and
+Cipher_Belt_wide; everything else comes from funcs.py.
+
+Function translator (G2): straight-line / constant-bound Rust functions of /repo  ->  Lean definitions
 (`/verif/lean/BlockCiphers/Gen/Funcs*.lean`), regenerated on every run.
 
 It is a small symbolic executor for the subset of Rust the bit-level kernels of the ciphers are written in:
@@ -90,6 +97,14 @@ class P:
 
     # ---- types ------------------------------------------------------------------------------
     def ty(self):
+        if self.at("<"):  # `<T as Trait>::Name`: an associated type
+            self.eat()
+            t = self.ty()
+            self.eat("as")
+            tr = self.ty()
+            self.eat(">")
+            self.eat("::")
+            return ("assoc", t, self.eat()[1], tr[1] if tr[0] == "name" else "?")
         if self.at("*") and self.peek(1)[1] in ("const", "mut"):  # raw pointer type
             self.eat()
             return ("ptr", self.eat()[1] == "mut", self.ty())
@@ -128,14 +143,16 @@ class P:
             self.eat()
             path.append(self.eat()[1])
         args = []
-        if self.at("<"):
+        if self.at("<") or self.at("<<"):
+            depth = 2 if self.at("<<") else 1  # `Prod<<W as Word>::Bytes, U2>`: the lexer reads `<<` as one token
             self.eat()
-            depth = 1
-            cur = []
+            cur = ["<"] if depth == 2 else []
             while depth:
                 tok = self.eat()
                 if tok[1] == "<":
                     depth += 1
+                elif tok[1] == "<<":
+                    depth += 2
                 elif tok[1] == ">":
                     depth -= 1
                 elif tok[1] == ">>":
@@ -419,6 +436,12 @@ class P:
         if self.at("<"):  # <T>::f
             self.eat()
             t = self.ty()
+            if self.at("as"):  # `<T as Trait>::f`
+                self.eat()
+                tr = self.ty()
+                self.eat(">")
+                self.eat("::")
+                return ("qpath", t, tr[1] if tr[0] == "name" else "?", self.eat()[1])
             if not self.at(">"):
                 raise Unsupported("qualified path <T as Trait>")
             self.eat(">")
@@ -457,12 +480,7 @@ class P:
                     self.eat()
                     pats.append(None)
                 else:
-                    save_ = self.i
-                    p_ = self.binop(4, False)  # `a | b` in a pattern separates alternatives, it is not a bit-or
-                    if not (self.at("|") or self.at("=>")):
-                        self.i = save_
-                        p_ = self.expr()
-                    pats.append(p_)
+                    pats.append(self.expr())
                 if self.at("|"):
                     self.eat()
                     continue
@@ -759,7 +777,6 @@ TRAITS = set()
 STRUCTS = {}
 TUPLE_STRUCTS = {}  # `struct Name<..>(T0, T1, ..);`: name -> [("0", T0), ("1", T1), ..] (fields are addressed as `.0`, `.1`)
 MACROS = {}
-REP_MACROS = {}  # `macro_rules! m { [$($x:expr,)*] => { [$( TEMPLATE ,)*] }; }`: name -> (x, template tokens)
 BLOCK_SIZES = {}
 KEY_SIZES = {}
 ASSOC_TYPES = {}
@@ -831,11 +848,6 @@ def find_functions(path, cfg=()):
             MACROS.setdefault(m.group(2), (params, lex(body[bstart + 1:bend - 1])[:-1]))
         except Unsupported:
             pass
-    for m in re.finditer(r"macro_rules!\s*(\w+)\s*\{\s*\[\s*\$\(\s*\$(\w+)\s*:\s*expr\s*,\s*\)\s*\*\s*\]\s*=>\s*\{\s*\[\s*\$\((.*?),\s*\)\s*\*\s*\]\s*\}\s*;?\s*\}", src, re.S):
-        try:
-            REP_MACROS.setdefault(m.group(1), (m.group(2), lex(m.group(3))[:-1]))
-        except Unsupported:
-            pass
     spans = []
     for m in FN_RE.finditer(src):
         name = m.group(2)
@@ -883,7 +895,6 @@ def find_functions(path, cfg=()):
             ret = P(lex(rm.group(1))).ty() if rm.group(1) else None
             body = P(lex(src[bstart:bend])).block()
             fn = Fn(name, params, ret, body, attrs, src[m.start():bend])
-            fn.path = path  # the file of the function: its `macro_rules!` take precedence over same-named macros of sibling files
             fn.owner = owner[1] if owner else None
             fn.cgen = re.findall(r"const\s+(\w+)\s*:", m.group(3) or "")
             fn.tgen = [g for g in re.findall(r"(?:^|[<,])\s*(\w+)\s*:", m.group(3) or "") if g not in fn.cgen and g != "const"]
@@ -932,6 +943,10 @@ def find_functions(path, cfg=()):
         else:
             consts[m.group(1)] = val
     aliases = {}
+    for m in re.finditer(r"\btype\s+(\w+)\s*<([^>=;]*)>\s*=\s*([^;]+);", src):
+        # a generic alias `type Name<A, B> = …;` (outside impl blocks): stored as `Name<>` -> ([params], body text)
+        if not any(a <= m.start() < b for (a, b, ty, tr) in impls):
+            aliases.setdefault(m.group(1) + "<>", ([x.strip() for x in m.group(2).split(",") if x.strip()], m.group(3).strip()))
     for m in re.finditer(r"\btype\s+(\w+)\s*=\s*", src):
         depth, k = 0, m.end()
         while k < len(src) and not (src[k] == ";" and depth == 0):
@@ -939,10 +954,7 @@ def find_functions(path, cfg=()):
             depth -= src[k] in ")]}"
             k += 1
         try:
-            at_ = P(lex(src[m.end():k])).ty()
-            if at_ == ("name", m.group(1), []) and m.group(1) in aliases:
-                continue  # `type ParBlocksSize = ParBlocksSize;` inside an impl: the module-level alias stays
-            aliases[m.group(1)] = at_
+            aliases[m.group(1)] = P(lex(src[m.end():k])).ty()
         except Unsupported:
             pass
     return fns, consts, aliases, errs
@@ -975,14 +987,6 @@ WIDTH = {"u8": 8, "u16": 16, "u32": 32, "u64": 64, "u128": 128, "usize": 64, "i3
 # element 0 in the least significant bits (see Prelude/X86Intrinsics.lean, Prelude/ArmIntrinsics.lean)
 VEC_TYPES = {"__m128i": 128, "uint8x16_t": 128, "uint32x4_t": 128}
 WIDTH.update(VEC_TYPES)
-# signed integers: modelled by the same `BitVec n` (two's complement, wrapping `+ - *` and the bitwise operations coincide
-# with the unsigned ones); only the comparisons differ (`BitVec.slt` / `BitVec.sle`).  Sign extension (widening cast of a
-# signed value), arithmetic shift right and signed division are not supported (-> Unsupported).  Overflow of the signed
-# arithmetic (a panic in debug builds) is not modelled here, like every other arithmetic overflow (property C20).
-SIGNED = {"i32", "i64"}
-# further register types / signed element types of the Kuznyechik sse2 / neon back ends (`sbox[..] as i8` arguments of
-# `_mm_set_epi8`; 64-bit `uint8x8_t` halves of `vcombine_u8`; `uint16x8_t` = the same 128 bits as `uint8x16_t`)
-WIDTH.update({"i8": 8, "i16": 16, "uint8x8_t": 64, "uint16x8_t": 128})
 
 # extern table: intrinsics of core::arch -> the Lean transcription of the vendor manual in the Prelude.
 #   argument kinds: vN = a value of N bits; imm8 = compile-time constant in 0..=255 passed as `BitVec 8`;
@@ -1014,39 +1018,25 @@ EXTERNS = {
     "vreinterpretq_u32_u8": ("BC.Arm.vreinterpretq_u32_u8", ("v128",), 128),
     "vgetq_lane_u32": ("BC.Arm.vgetq_lane_u32", ("v128", "lane4"), 32),
 }
-# Kuznyechik sse2 / neon back ends (Prelude/KuzIntrinsics.lean).  Further argument kinds: lane8 = compile-time lane
-# number 0..=7 passed as a `Nat`; v128x4 = a `uint8x16x4_t` (four registers, passed as four arguments).  `load16` also
-# accepts a data-dependent pointer into a constant byte array (`DPtr`): the 16 bytes are then `BC.Gen.memRead16`.
-EXTERNS.update({
-    "_mm_load_si128": ("BC.X86._mm_load_si128", ("load16",), 128),
-    "_mm_setzero_si128": ("BC.X86._mm_setzero_si128", (), 128),
-    "_mm_set_epi64x": ("BC.X86._mm_set_epi64x", ("v64", "v64"), 128),
-    "_mm_set_epi8": ("BC.X86._mm_set_epi8", ("v8",) * 16, 128),
-    "_mm_extract_epi16": ("BC.X86._mm_extract_epi16", ("v128", "lane8"), 32),
-    "_mm_unpacklo_epi8": ("BC.X86._mm_unpacklo_epi8", ("v128", "v128"), 128),
-    "_mm_unpackhi_epi8": ("BC.X86._mm_unpackhi_epi8", ("v128", "v128"), 128),
-    "_mm_slli_epi16": ("BC.X86._mm_slli_epi16", ("v128", "nat8"), 128),
-    "vorrq_u8": ("BC.Arm.vorrq_u8", ("v128", "v128"), 128),
-    "vsubq_u8": ("BC.Arm.vsubq_u8", ("v128", "v128"), 128),
-    "vzip1q_u8": ("BC.Arm.vzip1q_u8", ("v128", "v128"), 128),
-    "vzip2q_u8": ("BC.Arm.vzip2q_u8", ("v128", "v128"), 128),
-    "vcreate_u8": ("BC.Arm.vcreate_u8", ("v64",), 64),
-    "vcombine_u8": ("BC.Arm.vcombine_u8", ("v64", "v64"), 128),
-    "vreinterpretq_u16_u8": ("BC.Arm.vreinterpretq_u16_u8", ("v128",), 128),
-    "vshlq_n_u16": ("BC.Arm.vshlq_n_u16", ("v128", "nat8"), 128),
-    "vgetq_lane_u16": ("BC.Arm.vgetq_lane_u16", ("v128", "lane8"), 16),
-    "vqtbl4q_u8": ("BC.Arm.vqtbl4q_u8", ("v128x4", "v128"), 128),
-})
-
-
-CONST_MEMO = {}
 
 
 class BV:
     """an integer value: width w (None: untyped literal), Lean term, python constant if known"""
 
-    def __init__(self, w, lean=None, const=None, atom=True):
+    ub = None  # a proven upper bound of the value (set by `>> c`, `& c`, casts); used for reads of array parameters
+
+    def __init__(self, w, lean=None, const=None, atom=True, ub=None):
         self.w, self.const, self._lean, self.atom = w, const, lean, atom
+        if ub is not None:
+            self.ub = ub
+
+    def bound(self):
+        """an upper bound of the value, or None if the width is unknown"""
+        if self.const is not None:
+            return self.const
+        if self.ub is not None:
+            return self.ub
+        return (1 << self.w) - 1 if self.w else None
 
     def lean(self):
         if self.const is not None:
@@ -1059,77 +1049,10 @@ class BV:
         s = self.lean()
         return s if self.atom or self.const is not None else f"({s})"
 
-    # --- data-dependent control flow (select) ---------------------------------------------------
-    signed = False   # the Rust type is `i32`/`i64`: same bits (two's complement), comparisons are signed (`BitVec.slt`)
-    ub = None        # a proven upper bound of the (unsigned) value, None = 2^w - 1 (interval analysis for `while` exits)
-    isbool = False
-
-    def named(self, name):
-        """the same value under a `let` name"""
-        v = BV(self.w, name)
-        v.signed, v.ub = self.signed, self.ub
-        return v
-
-    def hi(self):
-        if self.const is not None:
-            return self.const
-        if self.ub is not None:
-            return self.ub
-        return (1 << self.w) - 1 if self.w else None
-
-    def lo(self):
-        return self.const if self.const is not None else 0
-
-
-class BoolV(BV):
-    """a data-dependent `bool`: `lean()` is a Lean `Bool` term, `prop` the same test as a decidable `Prop`
-    (the form used as the condition of `if … then … else …`, e.g. `x = 0x0#32`)"""
-    isbool = True
-
-    def __init__(self, lean, prop=None, atom=False):
-        BV.__init__(self, 1, lean, None, atom)
-        self.prop = prop if prop is not None else f"{lean} = true"
-
-    def named(self, name):
-        return BoolV(name, f"{name} = true", atom=True)
-
-
-class ResV:
-    """a `Result<(), E>` whose variant depends on data: `is_err` (BoolV or constant) — returned as a Lean `Bool`,
-    `true` = `Err(_)`"""
-
-    def __init__(self, is_err):
-        self.is_err = is_err
-
-
-class Frame:
-    """one function activation: the data-dependent conditions of the branches being executed (`path`), the early
-    `return`s recorded under such conditions (`early`: condition, value, state at the return) and the slots that
-    outlive the activation (`roots`: reachable from the arguments)"""
-
-    def __init__(self):
-        self.path, self.early, self.roots = [], [], None
-        self.ret_w = None  # width of the integer the function returns (types the untyped literals of `return 2;`)
-
 
 class Slot:
     def __init__(self, v=None):
         self.v = v
-
-
-class ROSlot(Slot):
-    """a byte of a constant table reached through a raw pointer (`&sbox[c] as *const u8`): reads only"""
-
-    def __init__(self, v=None):
-        self.__dict__["_v"] = v
-
-    @property
-    def v(self):
-        return self.__dict__["_v"]
-
-    @v.setter
-    def v(self, x):
-        raise Unsupported("write through a pointer into a constant table")
 
 
 class Arr:
@@ -1166,14 +1089,6 @@ class RawPtr:
         self.cells, self.cellsize, self.off, self.ty = cells, cellsize, off, ty
 
 
-class DPtr:
-    """a pointer `base.as_ptr().add(idx)` with a data-dependent `idx` into a constant byte array of the crate (the fused
-    tables of Kuznyechik): `vals` = the bytes, `idx` = the byte offset (a `usize` term)"""
-
-    def __init__(self, vals, idx):
-        self.vals, self.idx = vals, idx
-
-
 class Lanes:
     """a SIMD register whose storage is also viewed through a `[u32]` slice (`slice::from_raw_parts_mut` over the array
     of registers): `lanes` = the slots of its 32-bit elements, element 0 first (little-endian: bits 31:0)"""
@@ -1187,6 +1102,14 @@ class Table:
 
     def __init__(self, lean_name, dims, w, flat, off=0):
         self.lean_name, self.dims, self.w, self.flat, self.off = lean_name, dims, w, flat, off
+
+
+class ArrParam:
+    """an array parameter kept as ONE Lean argument `name : Array (BitVec w)` (option `arrays=`): the Rust array
+    `[[uN; d1]; d0]…` flattened row-major (memory order); read-only; dims/off as for `Table`"""
+
+    def __init__(self, lean_name, dims, w, off=0):
+        self.lean_name, self.dims, self.w, self.off = lean_name, dims, w, off
 
 
 class Break(Exception):
@@ -1204,6 +1127,9 @@ class Continue(Exception):
 class Return(Exception):
     def __init__(self, v):
         self.v = v
+
+
+BYTE_ORDERS = {"BE": "be", "BigEndian": "be", "NetworkEndian": "be", "LE": "le", "LittleEndian": "le"}
 
 
 class Exec:
@@ -1225,12 +1151,6 @@ class Exec:
         self.depth = 0
         self.want_ty = {}   # id(expression node) -> type expected by its context (`let x: T = e`, tail expression of a fn)
         self.fn_stack = []  # names of the functions being executed (resolution of nested fns)
-        self.frames = [Frame()]  # activations (data-dependent control flow, see `select`)
-        self.sel_depth = 0       # > 0 while a branch of a data-dependent `if`/`match`/`while` is being executed
-        self.defs = {}           # Rust fn -> (Lean definition name template, params fixed to constants): emitted as calls
-        self.aux_mem = {}  # name -> chunk tables: a constant byte array as a list of chunks
-        self.dptr_names, self.dptr_keep = {}, []  # chunk tables of the constant byte arrays read through data-dependent pointers
-        self.path_stack = []  # source files of the functions being executed (resolution of `macro_rules!`)
 
     # ---- naming / emission ------------------------------------------------------------------
     def fresh(self, base):
@@ -1248,7 +1168,7 @@ class Exec:
                 return v
             name = self.fresh(base)
             self.lines.append(f"  let {name} := {v.lean()}")
-            return v.named(name)
+            return BV(v.w, name, ub=v.ub)
         return v
 
     # ---- types ------------------------------------------------------------------------------
@@ -1259,11 +1179,54 @@ class Exec:
             elif t[0] == "name" and t[1] in self.generics:
                 g = self.generics[t[1]]
                 t = ("name", g, []) if isinstance(g, str) else g
+            elif t[0] == "name" and t[2] and t[1] + "<>" in self.aliases and t[1] not in STRUCTS and "Self" not in t[2]:
+                # generic alias: substitute the arguments textually (`cipher::Key<Self>` / `Block<Self>` are not the crate's)
+                params, body = self.aliases[t[1] + "<>"]
+                txt = " ".join(t[2])
+                txt += " >" * (txt.count("<") - txt.count(">"))
+                actual = [a.strip() for a in split_top(txt)]
+                if len(actual) != len(params):
+                    raise Unsupported(f"generic alias {t[1]}: {len(actual)} arguments")
+                sub = dict(zip(params, actual))
+                t = P(lex(re.sub(r"\b(" + "|".join(map(re.escape, params)) + r")\b", lambda m_: sub[m_.group(1)], body))).ty()
             elif t[0] == "name" and t[1] in self.aliases and t[1] not in STRUCTS:
                 t = self.aliases[t[1]]
+            elif t[0] == "name" and t[1] == "Self" and not t[2] and self.self_ty in WIDTH:
+                t = ("name", self.self_ty, [])  # inside `impl Trait for uN`
             else:
                 break
         return t
+
+    def typenum(self, t):
+        """the number a typenum type denotes: `U<n>`, a generic bound to one, `Prod/Sum/Diff/Quot<A, B>`,
+        `<T as Trait>::Name` (an associated type of an impl of the crate), a (generic) alias of these; else None"""
+        t = self.resolve(t)
+        if t[0] == "assoc":
+            owner = self.resolve(t[1])
+            if owner[0] == "name" and (owner[1], t[2]) in ASSOC_TYPES:
+                saved = self.self_ty
+                self.self_ty = owner[1]
+                try:
+                    return self.typenum(P(lex(ASSOC_TYPES[(owner[1], t[2])])).ty())
+                finally:
+                    self.self_ty = saved
+            return None
+        if t[0] != "name":
+            return None
+        if isinstance(t[1], int):
+            return t[1]
+        m = re.fullmatch(r"U(\d+)", t[1]) if isinstance(t[1], str) else None
+        if m and not t[2]:
+            return int(m.group(1))
+        if t[1] in ("Prod", "Sum", "Diff", "Quot") and t[2]:
+            a = [self.typenum(x) for x in self.type_args(t[2])]
+            if len(a) != 2 or None in a:
+                return None
+            x, y = a
+            if t[1] == "Diff" and x < y or t[1] == "Quot" and y == 0:
+                raise Unsupported(f"typenum {t[1]}<{x}, {y}>")
+            return {"Prod": x * y, "Sum": x + y, "Diff": x - y, "Quot": x // y if y else 0}[t[1]]
+        return None
 
     def param_value(self, name, t, inputs):
         """build the symbolic value of a parameter of declared type t; registers Lean arguments"""
@@ -1272,22 +1235,14 @@ class Exec:
             return self.struct_value(self.self_ty, "self", inputs)
         if t[0] == "ref":
             return Ref(Slot(self.param_value(name, t[2], inputs)))
-        if t[0] == "name" and t[1] == "InOut" and "ParBlocks" in t[2] and self.self_ty:
-            # `InOut<'_, '_, ParBlocks<Self>>` of a back end: `ParBlocksSize` blocks, one `BitVec (8·BlockSize)` each
-            m = BLOCK_SIZES.get(self.self_ty)
-            pt = ASSOC_TYPES.get((self.self_ty, "ParBlocksSize"))
-            pt = self.resolve(P(lex(pt)).ty()) if pt else None
-            if m is None or pt is None or pt[0] != "name" or not re.fullmatch(r"U\d+", pt[1]):
-                raise Unsupported(f"ParBlocks<Self>: block size / ParBlocksSize of {self.self_ty} unknown")
-            cnt = int(pt[1][1:])
-            inp = []
-            for j in range(cnt):
-                arg = self.fresh(f"{name}{j}")
-                inputs.append((arg, 8 * m))
-                inp.append(Slot(Arr([Slot(BV(8, f"{arg}.extractLsb' {8 * (m - 1 - i)} 8", atom=False)) for i in range(m)])))
-            return InOutV(Arr(inp), Arr([Slot(Arr([Slot(None) for _ in range(m)])) for _ in range(cnt)]))
         if t[0] == "name" and t[1] == "InOut":
             n = BLOCK_SIZES.get(self.self_ty)
+            if n is None and (self.self_ty, "BlockSize") in ASSOC_TYPES:
+                # `type BlockSize = BlockSize<W>;`: a typenum expression over the generics of the instance
+                try:
+                    n = self.typenum(P(lex(ASSOC_TYPES[(self.self_ty, "BlockSize")])).ty())
+                except Unsupported:
+                    n = None
             if n is None and t[2]:
                 # free function: the type is written, `InOut<'_, '_, Block>` or `InOut<'_, '_, Array<Block, N>>`
                 bt = self.norm_ty(self.type_args(t[2])[-1])
@@ -1322,12 +1277,12 @@ class Exec:
             return v
         if t[0] == "name" and t[1] in STRUCTS and t[1] not in WIDTH:
             return self.struct_value(t[1], name, inputs)
-        if t[0] == "name" and t[1] in TUPLE_STRUCTS and t[1] not in WIDTH and t[1] not in self.aliases:
-            return self.struct_value(t[1], name, inputs)  # `enc: EncKeys` with `struct EncKeys(RoundKeys);`
         if t[0] == "name" and t[1] in WIDTH:
             arg = self.fresh(name)
             inputs.append((arg, WIDTH[t[1]]))
             return BV(WIDTH[t[1]], arg)
+        if t[0] == "arr" and name in self.arrays:
+            return self.arr_param(name, t, inputs)
         if t[0] == "arr":
             n = self.const_of(self.eval(t[2], {})) if t[2] is not None else self.lens.get(name)
             if n is None:
@@ -1361,6 +1316,12 @@ class Exec:
                 inputs.append((arg, 8 * n))
                 return Arr([Slot(BV(8, f"{arg}.extractLsb' {8 * (n - 1 - i)} 8", atom=False)) for i in range(n)])
             return Arr([Slot(self.param_value(f"{name}{i}", t[1], inputs)) for i in range(n)])
+        if t[0] == "name" and t[1] == "Array" and t[2] and self.hybrid_len(t) is None and name not in self.lens:
+            # `Array<T, N>` with T / N given through generics, aliases, typenum arithmetic
+            v = self.param_value(name, self.norm_ty(t), inputs)
+            if isinstance(v, Arr):
+                v.newtype = True
+            return v
         if t[0] == "name" and t[1] == "Array" and name in self.lens:
             raise Unsupported("hybrid_array parameter")
         if self.hybrid_len(t) is not None:
@@ -1370,6 +1331,44 @@ class Exec:
         if t[0] == "tup":
             return Arr([Slot(self.param_value(f"{name}{i}", x, inputs)) for i, x in enumerate(t[1])])
         raise Unsupported(f"parameter type {t}")
+
+    arrays = ()  # names of the parameters kept as one `Array (BitVec w)` argument (see ArrParam)
+
+    def arr_param(self, name, t, inputs):
+        dims, el = [], t
+        while el[0] == "arr":
+            if el[2] is None:
+                raise Unsupported(f"array parameter `{name}`: slice dimension")
+            dims.append(self.const_of(self.eval(el[2], {})))
+            el = self.resolve(el[1])
+        if el[0] != "name" or el[1] not in WIDTH:
+            raise Unsupported(f"array parameter `{name}`: element type {el}")
+        arg = self.fresh(name)
+        inputs.append((arg, f"Array (BitVec {WIDTH[el[1]]})"))
+        return ArrParam(arg, dims, WIDTH[el[1]])
+
+    def arr_param_index(self, base, idx):
+        """`a[i]` of an array parameter: a sub-array (outer dimension, constant index) or the element
+        `name[off + i]!`; a data-dependent index must be provably in range (`BV.bound`), so that the flattened read is the
+        Rust read"""
+        stride = 1
+        for d in base.dims[1:]:
+            stride *= d
+        if idx.const is not None:
+            if idx.const >= base.dims[0]:
+                raise Unsupported(f"index {idx.const} out of bounds ({base.dims[0]})")
+            off = base.off + idx.const * stride
+            if len(base.dims) == 1:
+                return BV(base.w, f"{base.lean_name}[{off}]!", atom=True)
+            return ArrParam(base.lean_name, base.dims[1:], base.w, off)
+        if len(base.dims) != 1:
+            raise Unsupported("data-dependent index into an outer dimension of an array parameter")
+        b = idx.bound()
+        if b is None or b >= base.dims[0]:
+            raise Unsupported(f"data-dependent index into an array parameter: not provably < {base.dims[0]}")
+        i = idx.par() + ".toNat"
+        at = i if base.off == 0 else f"{base.off} + {i}"
+        return BV(base.w, f"{base.lean_name}[{at}]!", atom=True)
 
     def struct_value(self, ty, name, inputs):
         if ty not in STRUCTS and ty not in TUPLE_STRUCTS:
@@ -1467,6 +1466,9 @@ class Exec:
             m = re.fullmatch(r"U(\d+)", g) if isinstance(g, str) else None
             if m:
                 return int(m.group(1))
+        n_ = self.typenum(t)
+        if n_ is not None:
+            return n_
         raise Unsupported(f"array length {t}")
 
     def norm_ty(self, t):
@@ -1562,22 +1564,11 @@ class Exec:
             raise Unsupported(f"{name}: {len(args)} arguments")
         parts, dest = [], None
         for a, k in zip(args, kinds):
-            if k in ("imm8", "nat8", "lane4", "lane8"):
+            if k in ("imm8", "nat8", "lane4"):
                 c = self.const_of(self.eval(a, env, 32))
-                if not (0 <= c < (4 if k == "lane4" else 8 if k == "lane8" else 256)):
+                if not (0 <= c < (4 if k == "lane4" else 256)):
                     raise Unsupported(f"{name}: immediate {c} out of range")
                 parts.append(f"{c:#x}#8" if k == "imm8" else str(c))
-            elif k == "v128x4":
-                t4 = self.deref_all(self.eval(a, env))
-                if not (isinstance(t4, Arr) and len(t4.slots) == 4):
-                    raise Unsupported(f"{name}: a uint8x16x4_t value expected")
-                for s_ in t4.slots:
-                    r_ = self.scalar(s_.v)
-                    if r_.w != 128:
-                        raise Unsupported(f"{name}: table register of width {r_.w}")
-                    parts.append(r_.par())
-            elif k == "load16" and isinstance(self.deref_all(self.eval(a, env)), DPtr):
-                parts.append(self.dptr_read16(self.deref_all(self.eval(a, env))))
             elif k == "load16":
                 bs = []
                 for s_ in self.ptr_bytes(self.deref_all(self.eval(a, env)), 16):
@@ -1586,10 +1577,7 @@ class Exec:
                     bs.append(self.scalar(s_.v))
                 if any(b.w != 8 for b in bs):
                     raise Unsupported(f"{name}: memory is not bytes")
-                if all(b.const is not None for b in bs):
-                    parts.append(f"{int.from_bytes(bytes(b.const for b in bs), 'big'):#x}#128")  # constant memory: one literal
-                else:
-                    parts.append("(" + " ++ ".join(b.par() for b in bs) + ")")
+                parts.append("(" + " ++ ".join(b.par() for b in bs) + ")")
             elif k == "store16":
                 dest = self.ptr_bytes(self.deref_all(self.eval(a, env)), 16)
             else:
@@ -1600,36 +1588,13 @@ class Exec:
                 if v.w != w:
                     raise Unsupported(f"{name}: argument of width {v.w}, expected {w}")
                 parts.append(v.par())
-        term = f"{lean} {' '.join(parts)}" if parts else lean
+        term = f"{lean} {' '.join(parts)}"
         if dest is not None:
             m = self.bind("mem", BV(128, term, atom=False))
             for i, s_ in enumerate(dest):
                 s_.v = BV(8, f"{m.par()}.extractLsb' {8 * (15 - i)} 8", atom=False)
             return None
         return BV(rw, term, atom=False)
-
-    def dptr_read16(self, p):
-        """the 16 bytes at a data-dependent offset of a constant byte array, as one `BitVec 128` (memory byte 0 most
-        significant): `BC.Gen.memRead16 [chunk0, chunk1, …] off`.  The array is emitted as chunks of 256 little-endian
-        128-bit words (4096 bytes each; same shape as the `[[u128; 256]; 16]` view of the big_soft back end)"""
-        if len(p.vals) % 4096:
-            raise Unsupported("data-dependent pointer into a constant array whose size is not a multiple of 4096 bytes")
-        names = self.dptr_names.get(id(p.vals))
-        if names is None:
-            names = []
-            for c in range(0, len(p.vals), 4096):
-                vals = tuple(int.from_bytes(bytes(p.vals[q:q + 16]), "little") for q in range(c, c + 4096, 16))
-                if vals not in self.aux:
-                    self.aux[vals] = f"{self.lean_name}_tbl{len(self.aux)}"
-                names.append(self.aux[vals])
-            mem = f"{self.lean_name}_mem{len(self.aux_mem)}"
-            self.aux_mem[mem] = names
-            names = self.dptr_names[id(p.vals)] = mem
-            self.dptr_keep.append(p.vals)
-        if p.idx.w != 64:
-            raise Unsupported("pointer offset that is not a usize")
-        off = str(p.idx.const) if p.idx.const is not None else f"{p.idx.par()}.toNat"
-        return f"(BC.Gen.memRead16 {names} {off})"
 
     def transmute(self, v, ty):
         """`mem::transmute` between an integer / SIMD register and an array of integers of the same total size
@@ -1706,11 +1671,7 @@ class Exec:
                 if v.w is None:
                     raise Unsupported("! on untyped literal")
                 return BV(v.w, const=(~v.const) & ((1 << v.w) - 1))
-            if v.isbool:
-                return self.bool_not(v)
-            r_ = BV(v.w, f"~~~{v.par()}", atom=False)
-            r_.signed = v.signed
-            return r_
+            return BV(v.w, f"~~~{v.par()}", atom=False)
         if k == "neg":
             v = self.scalar(self.eval(e[1], env, want))
             if v.const is not None and v.w is None:
@@ -1724,20 +1685,6 @@ class Exec:
         if k == "addr":
             return self.addr(e[2], env)
         if k == "cast":
-            if e[2][0] == "ptr" and e[1][0] == "addr" and e[1][2][0] == "index":
-                # `&sbox[c] as *const T` with a constant c: a pointer to element c of the array (a literal table of the crate:
-                # read-only cells holding its values; any other array: its own cells, as for `as_ptr()`)
-                base = self.deref_all(self.eval(e[1][2][1], env))
-                c = self.eval(e[1][2][2], env, 64)
-                if isinstance(c, BV) and c.const is not None and isinstance(base, (Table, Arr)):
-                    if isinstance(base, Table):
-                        if len(base.dims) != 1:
-                            raise Unsupported("pointer into a multi-dimensional table")
-                        base = Arr([ROSlot(BV(base.w, const=x)) for x in base.flat[base.off:base.off + base.dims[0]]])
-                    p_ = self.as_raw_ptr(base, elem=True)
-                    if c.const >= len(p_.cells):
-                        raise Unsupported("pointer to an element out of bounds")
-                    return RawPtr(p_.cells, p_.cellsize, c.const * p_.cellsize, self.norm_ty(self.resolve(e[2])[2]))
             return self.cast(self.eval(e[1], env), e[2])
         if k == "index":
             return self.index(e, env, want)
@@ -1761,10 +1708,6 @@ class Exec:
         if k == "if":
             c = self.eval(e[1], env)
             c = self.deref_all(c)
-            if isinstance(c, BoolV):
-                # data-dependent condition: both branches are executed, the states are merged (`select`)
-                return self.select(c, lambda: self.run_block(e[2], dict(env), scoped_env=env),
-                                   (lambda: self.run_block(e[3], dict(env), scoped_env=env)) if e[3] is not None else (lambda: None), env, want)
             if not (isinstance(c, BV) and c.const is not None):
                 raise Unsupported("`if` on a data-dependent condition")
             br = e[2] if c.const else e[3]
@@ -1772,10 +1715,7 @@ class Exec:
                 return None
             return self.run_block(br, dict(env), scoped_env=env)
         if k == "match":
-            sv_ = self.deref_all(self.eval(e[1], env))
-            if isinstance(sv_, BV) and sv_.const is None and not sv_.isbool and sv_.w is not None:
-                return self.match_data(sv_, e[2], env, want)
-            s = self.const_of(sv_)
+            s = self.const_of(self.eval(e[1], env))
             for pats, body in e[2]:
                 for p in pats:
                     if p is None or self.const_of(self.eval(p, env)) == s:
@@ -1783,15 +1723,12 @@ class Exec:
             raise Unsupported("match without a matching arm")
         if k == "loop":
             for _ in range(100000):
-                n_early = len(self.frames[-1].early)
                 try:
                     self.run_block(e[1], dict(env), scoped_env=env)
                 except Break:
                     return None
                 except Continue:
                     pass
-                if len(self.frames[-1].early) != n_early:
-                    raise Unsupported("`loop` with a data-dependent exit")
             raise Unsupported("loop does not terminate under constant folding")
         if k == "macro":
             if e[1] in ("debug_assert", "debug_assert_eq", "debug_assert_ne", "assert", "assert_eq", "assert_ne"):
@@ -1810,36 +1747,8 @@ class Exec:
                 return None
             if e[1] == "unreachable":
                 raise Unsupported("unreachable! reached")
-            if self.macro_key(e[1]) in MACROS:
-                return self.expand_macro(self.macro_key(e[1]), e[2], env, want)
-            if e[1] in REP_MACROS:
-                # `m![a, b, …]` -> `[T(a), T(b), …]`
-                var, tmpl = REP_MACROS[e[1]]
-                groups, cur, d = [], [], 0
-                for tk in e[2]:
-                    if tk[0] == "op" and tk[1] in "([{":
-                        d += 1
-                    elif tk[0] == "op" and tk[1] in ")]}":
-                        d -= 1
-                    if tk == ("op", ",") and d == 0:
-                        groups.append(cur)
-                        cur = []
-                    else:
-                        cur.append(tk)
-                if cur:
-                    groups.append(cur)
-                items = []
-                for g in groups:
-                    out_, i_ = [], 0
-                    while i_ < len(tmpl):
-                        if tmpl[i_] == ("op", "$") and i_ + 1 < len(tmpl) and tmpl[i_ + 1][1] == var:
-                            out_ += [("op", "(")] + g + [("op", ")")]
-                            i_ += 2
-                        else:
-                            out_.append(tmpl[i_])
-                            i_ += 1
-                    items.append(P(out_ + [("eof", "")]).expr())
-                return self.eval(("array", items), env, want)
+            if e[1] in MACROS:
+                return self.expand_macro(e[1], e[2], env, want)
             raise Unsupported(f"macro {e[1]}!")
         if k == "structlit":
             ty = self.self_ty if e[1] == "Self" else e[1]
@@ -1864,10 +1773,6 @@ class Exec:
                 if isinstance(v, tuple) and v and v[0] == "phantom":
                     continue
                 fields[fname] = Slot(v)
-            decl = [fn_ for fn_, _ in STRUCTS.get(ty, [])]
-            if set(fields) <= set(decl) and list(fields) != [f_ for f_ in decl if f_ in fields]:
-                # `Self { dec: …, enc: … }` written in another order than the declaration: outputs are in declaration order
-                fields = {f_: fields[f_] for f_ in decl if f_ in fields}
             return Struct(ty, fields)
         if k == "closure":
             return ("closure", e[1], e[2], env)
@@ -1883,12 +1788,6 @@ class Exec:
                 hi += 1
             return ("range", lo, hi)
         raise Unsupported(f"expression kind {k}")
-
-    def macro_key(self, name):
-        """the `macro_rules! name` of the file of the function being executed if it defines one (several back ends of a crate
-        define same-named macros: `unroll_par!`, `get!`), else the first macro of that name found in the crate"""
-        path = self.path_stack[-1] if self.path_stack else None
-        return (path, name) if (path, name) in MACROS else name
 
     def expand_macro(self, name, toks, env, want):
         params, tmpl = MACROS[name]
@@ -1907,7 +1806,7 @@ class Exec:
         if cur:
             args.append(cur)
         if len(args) != len(params):
-            raise Unsupported(f"macro {name if isinstance(name, str) else name[1]}!: {len(args)} arguments for {len(params)} parameters")
+            raise Unsupported(f"macro {name}!: {len(args)} arguments for {len(params)} parameters")
         sub = {}
         for (pn, kind), a in zip(params, args):
             sub[pn] = ([("op", "(")] + a + [("op", ")")]) if kind == "expr" else a
@@ -1924,6 +1823,8 @@ class Exec:
         return self.run_block(block, dict(env), scoped_env=env)
 
     def apply_closure(self, c, args):
+        if isinstance(c, tuple) and c and c[0] == "fnref":
+            return self.inline(c[1], list(args))
         if not (isinstance(c, tuple) and c[0] == "closure"):
             raise Unsupported("closure expected")
         _, pats, body, cenv = c
@@ -1967,11 +1868,12 @@ class Exec:
             return BV(1, const=int(name == "true"))
         if len(p) == 2 and p[1] == "USIZE" and (isinstance(self.generics.get(p[0]), int) or re.fullmatch(r"U\d+", str(self.generics.get(p[0], p[0])))):
             return BV(64, const=self.ty_len(("name", p[0], [])))
-        if len(p) == 2 and p[1] == "USIZE" and p[0] in self.aliases and p[0] not in self.generics:
-            # `type ParBlocksSize = U4;` … `ParBlocksSize::USIZE`
-            at_ = self.resolve(("name", p[0], []))
-            if at_[0] == "name" and re.fullmatch(r"U\d+", at_[1]):
-                return BV(64, const=int(at_[1][1:]))
+        if len(p) == 2 and p[0] == "Self" and self.self_ty in WIDTH and p[1] in ("MAX", "BITS", "MIN"):
+            p = [self.self_ty, p[1]]
+        if len(p) == 3 and p[2] == "USIZE":  # `W::Bytes::USIZE`: an associated typenum type of an impl of the crate
+            n_ = self.typenum(("assoc", ("name", p[0], []), p[1], "?"))
+            if n_ is not None:
+                return BV(64, const=n_)
         if len(p) == 2 and p[0] in WIDTH and p[1] in ("MAX", "BITS", "MIN"):
             w = WIDTH[p[0]]
             return BV(w if p[1] != "BITS" else 32, const={"MAX": (1 << w) - 1, "BITS": w, "MIN": 0}[p[1]])
@@ -1994,6 +1896,8 @@ class Exec:
                     self.self_ty = saved
         if name in self.consts:
             return self.const_value(name)
+        if len(p) == 1 and name in self.fns and name not in env:
+            return ("fnref", self.fns[f"::{name}"] if f"::{name}" in self.fns else self.fns[name])  # `xs.fold(init, f)`
         if name in ("bitxor", "bitand", "bitor") and len(p) >= 2:
             op = {"bitxor": "^", "bitand": "&", "bitor": "|"}[name]
             return ("closure", [("pid", "\0a"), ("pid", "\0b")], ("bin", op, ("path", ["\0a"]), ("path", ["\0b"])), {})
@@ -2003,20 +1907,8 @@ class Exec:
         key = (name, self.self_ty if "::" in name else None)
         if key in self.const_cache:
             return self.const_cache[key]
-        # big constant arrays computed by `const fn`s (Kuznyechik's fused tables: ~20 s each) are evaluated once per process
-        mkey = (REPO, self.crate, name, tuple(self.cfg)) if "::" not in name and not self.generics else None
-        if mkey in CONST_MEMO:
-            w_, nt_, vals_ = CONST_MEMO[mkey]
-            v = Arr([Slot(BV(w_, const=x)) for x in vals_])
-            v.newtype = nt_
-            self.const_cache[key] = v
-            return v
         v = self.const_value_(name)
         self.const_cache[key] = v
-        if mkey is not None and isinstance(v, Arr) and len(v.slots) >= 4096:
-            es = [s_.v for s_ in v.slots]
-            if all(isinstance(x, BV) and x.const is not None and x.w == es[0].w for x in es):
-                CONST_MEMO[mkey] = (es[0].w, v.newtype, tuple(x.const for x in es))
         return v
 
     def const_value_(self, name):
@@ -2082,6 +1974,8 @@ class Exec:
                 return Table(base.lean_name, [hi - lo], base.w, base.flat, base.off + lo)
             raise Unsupported("range index on non-array")
         idx = self.scalar(idx)
+        if isinstance(base, ArrParam):
+            return self.arr_param_index(base, idx)
         if isinstance(base, Arr):
             if idx.const is None:
                 elems = [self.deref_all(sl.v) for sl in base.slots]
@@ -2174,42 +2068,12 @@ class Exec:
         if t[0] == "name" and t[1] in WIDTH:
             v = self.scalar(v)
             w = WIDTH[t[1]]
-            if t[1] in ("i8", "i16"):
-                # `x as i8`: only the same-width reinterpretation of an unsigned value (arguments of `_mm_set_epi8`); the result
-                # is marked so that a later widening cast (a sign extension, not modelled) is refused
-                if v.w != w:
-                    raise Unsupported(f"cast of a {v.w}-bit value to {t[1]}")
-                sv = BV(w, v._lean, v.const, v.atom)
-                sv.signed = True
-                sv.narrow_signed = True
-                return sv
-            if (getattr(v, "signed", False) and getattr(v, "narrow_signed", False)) and v.w is not None and w > v.w:
-                raise Unsupported("widening cast of a signed value (sign extension)")
-            sg = t[1] in SIGNED
-            if v.isbool and v.const is None:
-                # `u8::from(b)` / `b as u8`
-                r_ = BV(w, f"if {v.prop} then 0x1#{w} else 0x0#{w}", atom=False)
-                r_.ub, r_.signed = 1, sg
-                return r_
             if v.const is not None:
-                r_ = BV(w, const=v.const & ((1 << w) - 1))
-                if sg:
-                    if v.signed and v.w is not None and v.w < w:
-                        raise Unsupported("widening cast of a signed constant")
-                    r_.signed = True
-                return r_
-            if v.signed and v.w < w:
-                raise Unsupported("widening cast of a signed value (sign extension)")
+                return BV(w, const=v.const & ((1 << w) - 1))
             if v.w == w:
-                if v.signed == sg:
-                    return v
-                r_ = BV(w, v._lean, atom=v.atom)  # `as i32` / `as u32`: the same bits, the other comparison
-                r_.ub, r_.signed = v.ub, sg
-                return r_
-            r_ = BV(w, f"{v.par()}.setWidth {w}", atom=False)
-            r_.ub = min(v.hi(), (1 << w) - 1)
-            r_.signed = sg
-            return r_
+                return v
+            vb = v.bound()
+            return BV(w, f"{v.par()}.setWidth {w}", atom=False, ub=vb if vb is not None and vb < (1 << w) else None)
         raise Unsupported(f"cast to {t}")
 
     OPS = {"^": "^^^", "&": "&&&", "|": "|||", "+": "+", "-": "-", "*": "*", "<<": "<<<", ">>": ">>>"}
@@ -2228,22 +2092,13 @@ class Exec:
             if a.w is None:
                 raise Unsupported("shift of an untyped literal by data")
             amt = str(b.const) if b.const is not None else b.par()
-            if a.isbool or b.isbool:
-                raise Unsupported("shift of a bool")
-            if a.signed and op == ">>":
-                raise Unsupported("arithmetic shift right of a signed value")
-            r_ = BV(a.w, f"{a.par()} {self.OPS[op]} {amt}", atom=False)
-            r_.signed = a.signed
-            if op == ">>" and b.const is not None:
-                r_.ub = a.hi() >> b.const
-            return r_
+            ub_ = a.bound() >> b.const if op == ">>" and b.const is not None else None
+            return BV(a.w, f"{a.par()} {self.OPS[op]} {amt}", atom=False, ub=ub_)
         if op in ("==", "!=", "<", ">", "<=", ">=", "&&", "||"):
             a = self.scalar(self.eval(l, env))
             b = self.scalar(self.eval(r, env, a.w))
             if a.const is None or b.const is None:
-                return self.compare(op, a, b)
-            if a.signed or b.signed:
-                return self.compare(op, a, b)
+                raise Unsupported("comparison of data-dependent values")
             res = {"==": a.const == b.const, "!=": a.const != b.const, "<": a.const < b.const, ">": a.const > b.const,
                    "<=": a.const <= b.const, ">=": a.const >= b.const, "&&": bool(a.const and b.const),
                    "||": bool(a.const or b.const)}[op]
@@ -2254,13 +2109,6 @@ class Exec:
             a = BV(b.w, const=a.const)
         if b.w is None and a.w is not None:
             b = BV(a.w, const=b.const)
-        if a.w != b.w and a.w is not None and b.w is not None:
-            # rustc guarantees equal operand types: a constant of another width is a loop counter (typed 64 bits by the
-            # translator); its value is exact, it is re-typed when it fits (otherwise Unsupported below)
-            if a.const is not None and not a.signed and a.const < (1 << b.w) and (b.const is None or a.w == 64):
-                a = BV(b.w, const=a.const)
-            elif b.const is not None and not b.signed and b.const < (1 << a.w) and (a.const is None or b.w == 64):
-                b = BV(a.w, const=b.const)
         if a.w != b.w:
             raise Unsupported(f"operands of `{op}` have widths {a.w} and {b.w}")
         if a.const is not None and b.const is not None:
@@ -2274,396 +2122,42 @@ class Exec:
                     raise Unsupported(f"constant arithmetic overflows: {x} {op} {y}")
                 val &= (1 << a.w) - 1
             return BV(a.w, const=val)
+        if op == "%" and b.const and a.w:
+            # remainder by a non-zero constant (`n % size` of RC5's u64 / u128 rotations): `BitVec.umod`
+            return BV(a.w, f"{a.par()} % {b.par()}", atom=False, ub=b.const - 1)
         if op in ("/", "%"):
             raise Unsupported("division of data-dependent values")
-        if a.isbool or b.isbool:
-            return self.bool_binop(op, a, b)
-        r_ = BV(a.w, f"{a.par()} {self.OPS[op]} {b.par()}", atom=False)
-        r_.signed = a.signed or b.signed
-        if op == "&":
-            r_.ub = min(a.hi(), b.hi())
-        return r_
+        ub_ = min(a.bound(), b.bound()) if op == "&" else None
+        return BV(a.w, f"{a.par()} {self.OPS[op]} {b.par()}", atom=False, ub=ub_)
 
-    # ---- data-dependent control flow: conditions ------------------------------------------------------
-    def bool_not(self, v):
-        if v.const is not None:
-            return BV(1, const=int(not v.const))
-        if getattr(v, "neg_of", None) is not None:
-            return v.neg_of
-        r_ = BoolV(f"!{v.par()}", f"¬({v.prop})")
-        r_.neg_of = v
-        return r_
+    def qcall(self, f, args, env, want):
+        """`<T as Trait>::f(args)`: the bit operators of core::ops on integers, or a method of a trait of the crate"""
+        _, t, tr, name = f
+        t = self.resolve(t)
+        ops = {("BitXor", "bitxor"): "^", ("BitAnd", "bitand"): "&", ("BitOr", "bitor"): "|"}
+        if t[0] == "name" and t[1] in WIDTH and (tr, name) in ops and tr not in TRAITS and len(args) == 2:
+            return self.binop(ops[(tr, name)], args[0], args[1], env, WIDTH[t[1]])
+        if t[0] == "name" and tr in TRAITS and f"{t[1]}::{name}" in self.fns:
+            return self.inline(self.fns[f"{t[1]}::{name}"], [self.eval(a, env) for a in args])
+        raise Unsupported(f"qualified call <{t[1] if t[0] == 'name' else t} as {tr}>::{name}")
 
-    def as_bool(self, v):
-        if v.isbool or (v.const is not None and v.w in (1, None) and v.const in (0, 1)):
-            return v
-        raise Unsupported("bool expected")
+    def trait_impl_for(self, rv, name):
+        """a method call `x.name(..)` on an integer whose type is a generic parameter `W` bound to `uN`: the method of
+        the crate's `impl Trait for uN` (inside such an impl, and for every other integer, methods are the inherent ones)"""
+        if not (isinstance(rv, BV) and rv.w) or self.self_ty in WIDTH:
+            return None
+        for g_ in self.generics.values():
+            if isinstance(g_, str) and g_ in WIDTH and g_ != "usize" and WIDTH[g_] == rv.w and f"{g_}::{name}" in self.fns:
+                return self.fns[f"{g_}::{name}"]
+        return None
 
-    def bool_binop(self, op, a, b):
-        """`&&` `||` (and `&` `|` `^` on bools) with at least one data-dependent operand.  Both operands have been
-        evaluated: the right operand of a lazy `&&`/`||` is an expression without side effects in the supported subset
-        (a call that assigns through `&mut` inside it would be executed unconditionally: not checked)."""
-        a, b = self.as_bool(a), self.as_bool(b)
-        op = {"&": "&&", "|": "||"}.get(op, op)
-        if op not in ("&&", "||", "^"):
-            raise Unsupported(f"`{op}` on bools")
-        if op == "^":
-            if a.const is not None:
-                return self.bool_not(b) if a.const else b
-            if b.const is not None:
-                return self.bool_not(a) if b.const else a
-            return BoolV(f"{a.par()} != {b.par()}", f"¬(({a.prop}) ↔ ({b.prop}))")
-        for x, y in ((a, b), (b, a)):
-            if x.const is not None:
-                if op == "&&":
-                    return y if x.const else BV(1, const=0)
-                return BV(1, const=1) if x.const else y
-        if op == "&&":
-            return BoolV(f"{a.par()} && {b.par()}", f"({a.prop}) ∧ ({b.prop})")
-        return BoolV(f"{a.par()} || {b.par()}", f"({a.prop}) ∨ ({b.prop})")
-
-    def compare(self, op, a, b):
-        """a comparison with a data-dependent operand -> BoolV; folded when the interval analysis decides it"""
-        if op in ("&&", "||"):
-            return self.bool_binop(op, a, b)
-        if a.isbool or b.isbool:
-            raise Unsupported("comparison of bools")
-        if a.w is None:
-            a = BV(b.w, const=a.const)
-        if b.w is None:
-            b = BV(a.w, const=b.const)
-        if a.w != b.w and a.w is not None and b.w is not None:
-            # rustc guarantees that both operands have the same type: a constant carrying another width is a loop counter /
-            # literal typed by the translator's default; its value is exact, so it is re-typed if it fits
-            if a.const is not None and b.const is None and a.const < (1 << b.w) and not a.signed:
-                a = BV(b.w, const=a.const)
-            elif b.const is not None and a.const is None and b.const < (1 << a.w) and not b.signed:
-                b = BV(a.w, const=b.const)
-        if a.w != b.w or a.w is None:
-            raise Unsupported(f"comparison of widths {a.w} and {b.w}")
-        w = a.w
-        signed = a.signed or b.signed
-        if signed:
-            def sv(x):
-                return x.const - (1 << w) if x.const >= (1 << (w - 1)) else x.const
-            if a.const is not None and b.const is not None:
-                x, y = sv(a), sv(b)
-                return BV(1, const=int({"==": x == y, "!=": x != y, "<": x < y, ">": x > y, "<=": x <= y, ">=": x >= y}[op]))
-        else:
-            al, ah, bl, bh = a.lo(), a.hi(), b.lo(), b.hi()
-            dec = {"==": (False if ah < bl or bh < al else None),
-                   "!=": (True if ah < bl or bh < al else None),
-                   "<": (True if ah < bl else False if al >= bh else None),
-                   "<=": (True if ah <= bl else False if al > bh else None),
-                   ">": (True if al > bh else False if ah <= bl else None),
-                   ">=": (True if al >= bh else False if ah < bl else None)}[op]
-            if dec is not None:
-                return BV(1, const=int(dec))
-        x, y = a.par(), b.par()
-        if op == "==":
-            return BoolV(f"{x} == {y}", f"{x} = {y}")
-        if op == "!=":
-            r_ = BoolV(f"{x} != {y}", f"¬({x} = {y})")
-            r_.neg_of = BoolV(f"{x} == {y}", f"{x} = {y}")
-            return r_
-        if op in (">", ">="):
-            x, y, op = y, x, {">": "<", ">=": "<="}[op]
-        if signed:
-            f_ = {"<": "BitVec.slt", "<=": "BitVec.sle"}[op]
-            return BoolV(f"{f_} {x} {y}", f"{f_} {x} {y} = true")
-        f_ = {"<": "BitVec.ult", "<=": "BitVec.ule"}[op]
-        return BoolV(f"{f_} {x} {y}", f"{x} {'<' if op == '<' else '≤'} {y}")
-
-    def path_cond(self, frame):
-        c = BV(1, const=1)
-        for cc, pol in frame.path:
-            c = self.bool_binop("&&", c, cc if pol else self.bool_not(cc))
-        return c
-
-    # ---- data-dependent control flow: select -----------------------------------------------------------
-    def reachable_slots(self, roots):
-        """every Slot reachable from the values `roots` (dict name -> Slot or a list of values): [(slot, hint)]"""
-        out, seen = [], set()
-        stack = [(v, k) for k, v in roots.items()] if isinstance(roots, dict) else [(v, "t") for v in roots]
-        stack.reverse()
-        while stack:
-            v, hint = stack.pop()
-            if v is None or isinstance(v, (BV, str, int, Table, ResV)):
-                continue
-            if id(v) in seen:
-                continue
-            seen.add(id(v))
-            if isinstance(v, Slot):
-                out.append((v, hint))
-                stack.append((v.v, hint))
-            elif isinstance(v, Ref):
-                stack.append((v.slot, hint))
-            elif isinstance(v, Arr):
-                for i, s_ in reversed(list(enumerate(v.slots))):
-                    stack.append((s_, f"{hint}{i}"))
-            elif isinstance(v, Struct):
-                for fn_, s_ in reversed(list(v.fields.items())):
-                    stack.append((s_, fn_ if hint == "self" else f"{hint}_{fn_}"))
-            elif isinstance(v, InOutV):
-                stack += [(v.out_slot, hint), (v.out, hint), (v.inp, hint)]
-            elif isinstance(v, RawPtr):
-                stack += [(c_, hint) for c_ in reversed(v.cells)]
-            elif isinstance(v, Lanes):
-                stack += [(c_, hint) for c_ in reversed(v.lanes)]
-            elif isinstance(v, dict):
-                stack += [(x, k) for k, x in reversed(list(v.items()))]
-            elif isinstance(v, tuple) and v and v[0] == "closure":
-                stack.append((v[3], hint))  # the captured environment
-            elif isinstance(v, tuple) and v and v[0] in ("range", "phantom"):
-                pass
-            elif isinstance(v, (tuple, list)):
-                stack += [(x, hint) for x in reversed(v) if not isinstance(x, (str, int))]
-            else:
-                raise Unsupported(f"select: value of kind {type(v).__name__} in the environment")
-        return out
-
-    def merge(self, c, t, e, hint="t"):
-        """the value `if c then t else e`"""
-        if t is e:
-            return t
-        if isinstance(t, ResV) or isinstance(e, ResV):
-            def err_of(x):
-                if isinstance(x, Arr) and not x.slots:
-                    x = ResV(BV(1, const=0))  # Ok(())
-                if isinstance(x, ResV):
-                    b_ = x.is_err
-                    if not b_.isbool:
-                        b_ = BV(1, const=b_.const)
-                        b_.isbool = True
-                    return b_
-                raise Unsupported("select between Err(_) and a value that is not Ok(())")
-            return ResV(self.merge(c, err_of(t), err_of(e), "is_err"))
-        if isinstance(t, Ref) and isinstance(e, Ref):
-            if t.slot is e.slot:
-                return t
-            raise Unsupported("select between references to different places")
-        if t is None or e is None:
-            return None  # a variable assigned on one path only: not definitely initialised afterwards (rustc rejects reads)
-        if isinstance(t, Lanes):
-            t = self.lanes_value(t)
-        if isinstance(e, Lanes):
-            e = self.lanes_value(e)
-        if isinstance(t, BV) and isinstance(e, BV):
-            if t.isbool or e.isbool:
-                t, e = self.as_bool(t), self.as_bool(e)
-                if t.const is not None and e.const is not None:
-                    if t.const == e.const:
-                        return t
-                    return c if t.const else self.bool_not(c)
-                tp = ("True" if t.const else "False") if t.const is not None else t.prop
-                ep = ("True" if e.const else "False") if e.const is not None else e.prop
-                tb = ("true" if t.const else "false") if t.const is not None else t.par()
-                eb = ("true" if e.const else "false") if e.const is not None else e.par()
-                return BoolV(f"if {c.prop} then {tb} else {eb}", f"if {c.prop} then {tp} else {ep}")
-            if t.w is None:
-                t = BV(e.w, const=t.const)
-            if e.w is None:
-                e = BV(t.w, const=e.const)
-            if t.w != e.w:
-                raise Unsupported(f"select between widths {t.w} and {e.w}")
-            if t.const is not None and t.const == e.const:
-                return t
-            if t.const is None and e.const is None and t.lean() == e.lean():
-                return t
-            if t.w is None:
-                raise Unsupported("select between untyped literals")
-            r_ = BV(t.w, f"if {c.prop} then {t.par()} else {e.par()}", atom=False)
-            r_.signed = t.signed or e.signed
-            r_.ub = max(t.hi(), e.hi())
-            return self.bind(hint, r_)
-        if isinstance(t, Arr) and isinstance(e, Arr) and len(t.slots) == len(e.slots):
-            r_ = Arr([Slot(self.merge(c, a_.v, b_.v, f"{hint}{i}")) for i, (a_, b_) in enumerate(zip(t.slots, e.slots))])
-            r_.newtype = t.newtype
-            return r_
-        if isinstance(t, Struct) and isinstance(e, Struct) and t.ty == e.ty and list(t.fields) == list(e.fields):
-            return Struct(t.ty, {k_: Slot(self.merge(c, t.fields[k_].v, e.fields[k_].v, k_)) for k_ in t.fields})
-        raise Unsupported(f"select between {type(t).__name__} and {type(e).__name__}")
-
-    def freeze(self, v):
-        """the value of a branch, detached from the slots the other branch is going to overwrite"""
-        if isinstance(v, Arr) or isinstance(v, Lanes):
-            return self.copy(v)
-        if isinstance(v, Struct):
-            return Struct(v.ty, {k_: Slot(self.freeze(s_.v)) for k_, s_ in v.fields.items()})
-        return v
-
-    def typed(self, v, w):
-        """an untyped literal takes the width its context expects"""
-        if isinstance(v, BV) and v.w is None and v.const is not None and w and 0 <= v.const < (1 << w):
-            return BV(w, const=v.const)
-        return v
-
-    def select(self, c, then_fn, else_fn, env, want=None):
-        """`if c { then } else { else }` on a data-dependent `c`: BOTH branches are executed (their `let`s are emitted one
-        after the other: every emitted term is total, so computing the branch not taken is harmless), each on the state
-        before the `if`; afterwards every slot whose value differs holds `if c then vThen else vElse`.
-        A `return` inside one branch is recorded in the activation frame (condition = conjunction of the enclosing
-        conditions) together with the state at that point; the rest of the function is executed as the other path and
-        `finish_frame` selects between the recorded returns and the final result.  `break`/`continue` under a
-        data-dependent condition are not supported."""
-        frame = self.frames[-1]
-        slots = self.reachable_slots(env)
-        before = [s_.v for s_, _ in slots]
-        res = []
-        for pol, fn_ in ((True, then_fn), (False, else_fn)):
-            for (s_, _), v_ in zip(slots, before):
-                s_.v = v_
-            frame.path.append((c, pol))
-            self.sel_depth += 1
-            try:
-                try:
-                    r_, ret = self.freeze(fn_()), False
-                except Return as ret_:
-                    r_, ret = self.freeze(ret_.v), True
-                except (Break, Continue):
-                    raise Unsupported("break/continue under a data-dependent condition")
-            finally:
-                frame.path.pop()
-                self.sel_depth -= 1
-            res.append((r_, ret, [s_.v for s_, _ in slots]))
-        (rT, retT, aT), (rE, retE, aE) = res
-        rT = self.typed(rT, frame.ret_w if retT else want)
-        rE = self.typed(rE, frame.ret_w if retE else want)
-        if retT != retE:
-            # `if c { …; return e1; } rest`: the returning path is set aside, execution continues as the other path
-            frame.path.append((c, retT))
-            try:
-                cond = self.path_cond(frame)
-            finally:
-                frame.path.pop()
-            if frame.roots is None and getattr(frame, "env0", None) is not None:
-                frame.roots = {id(s_) for s_, _ in self.reachable_slots(frame.env0)}
-            keep = frame.roots
-            r_, a_ = (rT, aT) if retT else (rE, aE)
-            frame.early.append((cond, r_, [(s_, v_) for (s_, _), v_ in zip(slots, a_) if keep is None or id(s_) in keep]))
-            for (s_, _), v_ in zip(slots, aE if retT else aT):
-                s_.v = v_
-            return rE if retT else rT
-        known = {id(s_) for s_, _ in slots}
-        for (s_, h_), vt, ve in zip(slots, aT, aE):
-            if vt is not ve and any(isinstance(x_, (Arr, Struct, InOutV, RawPtr)) for x_ in (vt, ve)):
-                # a branch put another aggregate into the slot: merged element-wise only if the new aggregates are
-                # fresh objects (their elements are not slots that the two branches have both written)
-                if any(id(q_) in known for x_ in (vt, ve) for q_, _ in self.reachable_slots([x_])):
-                    raise Unsupported("a branch of a data-dependent `if` re-binds an aggregate that shares storage")
-            s_.v = vt if vt is ve else self.merge(c, vt, ve, h_)
-        r_ = self.merge(c, rT, rE, "sel")
-        if retT:
-            raise Return(r_)
-        return r_
-
-    def finish_frame(self, frame, r):
-        """function exit: `if c1 then r1 else if c2 then r2 … else r` over the recorded early returns, for the result and
-        for every slot that outlives the activation"""
-        for cond, v_, snap in reversed(frame.early):
-            r = self.merge(cond, self.typed(v_, frame.ret_w), self.typed(r, frame.ret_w), "ret")
-            for s_, sv_ in snap:
-                if s_.v is not sv_:
-                    s_.v = self.merge(cond, sv_, s_.v, "t")
-        frame.early = []
-        return r
-
-    def match_data(self, sv, arms, env, want):
-        """`match x { p0 | p1 => a, …, _ => z }` on a data-dependent integer: `if x = p0 ∨ x = p1 then a else …`"""
-        if not sv.atom:
-            sv = self.bind("m", sv)
-
-        def go(i):
-            if i == len(arms):
-                raise Unsupported("data-dependent match without a catch-all arm")
-            pats, body = arms[i]
-            if any(p_ is None for p_ in pats):
-                return self.eval(body, env, want)
-            c = BV(1, const=0)
-            for p_ in pats:
-                pv = self.scalar(self.eval(p_, env, sv.w))
-                if pv.const is None:
-                    raise Unsupported("match pattern is not a constant")
-                c = self.bool_binop("||", c, self.compare("==", sv, pv))
-            if c.const is not None:
-                return self.eval(body, env, want) if c.const else go(i + 1)
-            return self.select(c, lambda: self.eval(body, env, want), lambda: go(i + 1), env, want)
-        return go(0)
-
-    def while_data(self, cond_e, body, env, c, depth=0):
-        """`while c { body }` on a data-dependent `c` = `if c { body; while c { body } }`, unrolled until the condition
-        folds to `false` (decided by constants and by the interval analysis: e.g. `while a > 0 { …; a >>= 1; }`); no
-        bound established within 64 iterations -> Unsupported (never a guess)"""
-        if depth >= 64:
-            raise Unsupported("`while` on a data-dependent condition: termination not established within 64 iterations")
-
-        def then_():
-            d_ = depth
-            while True:
-                try:
-                    self.run_block(body, dict(env))
-                except (Break, Continue):
-                    raise Unsupported("break/continue in a `while` on a data-dependent condition")
-                c2 = self.scalar(self.eval(cond_e, env))
-                if c2.const is None:
-                    self.while_data(cond_e, body, env, self.as_bool(c2), d_ + 1)
-                    return None
-                if not c2.const:
-                    return None
-                d_ += 1
-                if d_ >= 64:
-                    raise Unsupported("`while`: termination not established within 64 iterations")
-        n_early = len(self.frames[-1].early)
-        self.select(c, then_, lambda: None, env)
-        if len(self.frames[-1].early) != n_early:
-            raise Unsupported("`return` inside a `while` on a data-dependent condition")
-
-    def call_def(self, fn, actual, spec):
-        """a call emitted as a call of the generated definition of the callee (`defs=` of the target) instead of being
-        inlined: integer arguments and result only; parameters listed in `spec[1]` must be compile-time constants and
-        select the definition (`…_{i}`)"""
-        tmpl, fixed = spec
-        fx, parts = {}, []
-        for (pat, t), v in zip(fn.params, actual):
-            if t[0] == "self":
-                continue  # the definition was generated with `noself`: the method does not read `self`
-            pname = pat[1] if pat[0] == "pid" else None
-            rt = self.resolve(t)
-            if not (rt[0] == "name" and rt[1] in WIDTH and pname):
-                raise Unsupported(f"call of the definition of {fn.name}: parameter of type {rt}")
-            v = self.scalar(v)
-            if v.w is None:
-                v = BV(WIDTH[rt[1]], const=v.const)
-            if v.w != WIDTH[rt[1]] or v.isbool:
-                raise Unsupported(f"call of the definition of {fn.name}: argument width {v.w}")
-            if pname in fixed:
-                fx[pname] = self.const_of(v)
-            else:
-                parts.append(v.par())
-        rt = self.resolve(fn.ret) if fn.ret is not None else None
-        if not (rt and rt[0] == "name" and rt[1] in WIDTH and rt[1] != "bool"):
-            raise Unsupported(f"call of the definition of {fn.name}: result type {rt}")
-        lean = tmpl.format(**fx)
-        tgt = def_target(lean)
-        key = f"{fn.owner}::{fn.name}" if getattr(fn, "owner", None) else fn.name
-        if tgt is None or tgt["fn"].split("::")[-1] != fn.name or tgt["fn"] not in (key, fn.name, "::" + fn.name) \
-                or {k_: int(v_) for k_, v_ in (tgt.get("fixed") or {}).items()} != fx or tgt.get("crate", "").replace("-", "_") != self.crate:
-            raise Unsupported(f"no generated definition `{lean}` of {key}")
-        r_ = BV(WIDTH[rt[1]], f"BC.Gen.Fn.{lean} {' '.join(parts)}", atom=False)
-        r_.signed = rt[1] in SIGNED
-        return self.bind(fn.name + "_r", r_)
-
-    def mcall(self, e, env, want):
+    def mcall(self, e, env, want, inherent=False):
         recv_e, name, args = e[1], e[2], e[3]
         if name in ("iter", "into_iter", "iter_mut", "enumerate", "rev", "step_by", "zip", "chunks_exact", "chunks_exact_mut",
                     "chunks", "skip", "take", "copied", "cloned", "map", "fold", "for_each"):
             return self.iterator(e, env)
         recv = self.eval(recv_e, env, want)
         rv = self.deref_all(recv)
-        if isinstance(rv, ResV):
-            raise Unsupported(f".{name}() on a data-dependent Result")
-        if isinstance(rv, BV) and rv.const is None and (rv.isbool or rv.signed):
-            raise Unsupported(f".{name}() on a data-dependent bool / signed integer")
         if isinstance(rv, InOutV):
             if name == "get_in":
                 return Ref(Slot(rv.inp))
@@ -2682,21 +2176,11 @@ class Exec:
             raise Unsupported(f"InOut method .{name}()")
         if isinstance(rv, RawPtr):
             return self.ptr_method(rv, name, args, e, env)
-        if isinstance(rv, tuple) and rv and rv[0] == "ptr" and name == "add" and len(args) == 1:
-            # `TABLE.0.as_ptr().add(idx)`: a pointer into a constant byte array at a (data-dependent) byte offset
-            base = rv[1]
-            vals = getattr(base, "_bytes", None)
-            if vals is None:
-                es = [self.deref_all(sl.v) for sl in base.slots]
-                if not all(isinstance(x, BV) and x.w == 8 and x.const is not None for x in es):
-                    raise Unsupported("pointer arithmetic on an array that is not a constant byte array")
-                vals = base._bytes = tuple(x.const for x in es)
-            idx = self.scalar(self.eval(args[0], env, 64))
-            if idx.w is None:
-                idx = BV(64, const=idx.const)
-            return DPtr(vals, idx)
-        if isinstance(rv, DPtr) and name == "cast" and not args:
-            return rv  # the access width is that of the load intrinsic
+        tfn_ = None if inherent else self.trait_impl_for(rv, name)
+        if tfn_ is not None:
+            return self.inline(tfn_, [rv] + [self.eval(a, env, rv.w) for a in args])
+        if name == "into" and not args and isinstance(rv, BV) and rv.const is None and rv.w and want and want > rv.w:
+            return self.cast(rv, ("name", f"u{want}", []))  # `From<uM> for uN`, M < N: zero extension
         if name == "as_ptr" and not args and isinstance(rv, Arr) and rv.slots and \
                 all(isinstance(self.deref_all(sl.v), BV) and self.deref_all(sl.v).const is not None for sl in rv.slots):
             return ("ptr", rv)   # a constant byte table reinterpreted through `.cast()` + a typed `let` (big_soft fused tables)
@@ -2787,6 +2271,19 @@ class Exec:
                     d.v = s.v
                 return None
             raise Unsupported("copy_from_slice shapes")
+        if name == "copy_within" and isinstance(rv, Arr) and len(args) == 2:
+            rg = self.eval(args[0], env, 64)
+            dest = self.const_of(self.eval(args[1], env, 64))
+            if not (isinstance(rg, tuple) and rg[0] == "range"):
+                raise Unsupported("copy_within: source is not a range")
+            lo = rg[1] or 0
+            hi = rg[2] if rg[2] is not None else len(rv.slots)
+            if lo > hi or hi > len(rv.slots) or dest + (hi - lo) > len(rv.slots):
+                raise Unsupported("copy_within out of range (the call panics)")
+            vals = [sl.v for sl in rv.slots[lo:hi]]  # memmove semantics: read everything first
+            for k_, v_ in enumerate(vals):
+                rv.slots[dest + k_].v = v_
+            return None
         if name == "swap" and isinstance(rv, Arr):
             i = self.const_of(self.eval(args[0], env))
             j = self.const_of(self.eval(args[1], env))
@@ -2876,10 +2373,32 @@ class Exec:
             return f[1]
         if f[0] == "sizeof":
             return self.eval(f, env)
+        if f[0] == "qpath":
+            return self.qcall(f, args, env, want)
         if f[0] != "path":
             raise Unsupported("call of a non-path")
         p = f[1]
         name = p[-1]
+        if name in ("max", "min") and (len(p) == 1 or p[-2] == "cmp") and len(args) == 2 and name not in self.fns:
+            x_, y_ = (self.const_of(self.eval(a, env, want)) for a in args)  # core::cmp::max / min of compile-time constants
+            return BV(want or 64, const=max(x_, y_) if name == "max" else min(x_, y_))
+        if name == "default" and len(p) == 2 and p[0] == "Array" and not args and id(e) in self.want_ty and "Array" not in self.fns:
+            return self.zero_of(self.norm_ty(self.want_ty[id(e)]))  # `let x: Array<T, N> = Array::default();`
+        if name == "from_fn" and len(p) == 2 and p[0] == "Array" and len(args) == 1 and id(e) in self.want_ty and "Array" not in self.fns:
+            nt_ = self.norm_ty(self.want_ty[id(e)])
+            if nt_[0] != "arr":
+                raise Unsupported("Array::from_fn of a non-array type")
+            c_ = self.eval(args[0], env)
+            w_ = WIDTH.get(nt_[1][1]) if nt_[1][0] == "name" else None
+            out_ = []
+            for i_ in range(int(nt_[2][1])):
+                v_ = self.apply_closure(c_, [BV(64, const=i_)])
+                if isinstance(v_, BV) and v_.w is None and w_:
+                    v_ = BV(w_, const=v_.const)
+                out_.append(Slot(self.copy(v_)))
+            r_ = Arr(out_)
+            r_.newtype = True
+            return r_
         if name in EXTERNS and name not in self.fns:
             return self.extern_call(name, args, env)
         if name == "zeroed" and (len(p) == 1 or p[-2] == "mem") and not args and name not in self.fns:
@@ -2890,11 +2409,6 @@ class Exec:
             if id(e) not in self.want_ty:
                 raise Unsupported("transmute to an unknown type")
             return self.transmute(self.eval(args[0], env), self.want_ty[id(e)])
-        if name == "uint8x16x4_t" and len(args) == 4 and name not in self.fns:
-            regs = [self.scalar(self.eval(a, env, 128)) for a in args]
-            if any(r_.w != 128 for r_ in regs):
-                raise Unsupported("uint8x16x4_t of values that are not 128-bit registers")
-            return Arr([Slot(self.bind("tbl", r_) if not r_.atom else r_) for r_ in regs])
         if name == "from_raw_parts_mut" and len(args) == 2 and name not in self.fns:
             return self.raw_parts(self.deref_all(self.eval(args[0], env)), self.const_of(self.eval(args[1], env, 64)))
         if len(p) == 1:
@@ -2946,8 +2460,14 @@ class Exec:
             if all(b.const is not None for b in bs):
                 return BV(w, const=int.from_bytes(bytes(b.const for b in bs), "big"))
             return BV(w, "(" + " ++ ".join(b.par() for b in bs) + ")", atom=True)
+        if len(p) >= 2 and p[-2] in WIDTH and name in ("to_le_bytes", "to_be_bytes") and len(args) == 1:
+            return self.mcall(("mcall", args[0], name, []), env, WIDTH[p[-2]], inherent=True)
         if len(p) >= 2 and p[-2] in WIDTH and name in ("wrapping_add", "wrapping_sub", "wrapping_mul", "rotate_left", "rotate_right", "swap_bytes"):
-            return self.mcall(("mcall", args[0], name, args[1:]), env, WIDTH[p[-2]])
+            return self.mcall(("mcall", args[0], name, args[1:]), env, WIDTH[p[-2]], inherent=True)
+        bo_m = re.fullmatch(r"(read|write)_u(16|32|64|128)_into", name)
+        if bo_m and len(p) >= 2 and len(args) == 2 and name not in self.fns and \
+                self.generics.get(p[-2], p[-2]) in BYTE_ORDERS:
+            return self.byteorder_into(bo_m.group(1), int(bo_m.group(2)), BYTE_ORDERS[self.generics.get(p[-2], p[-2])], args, env)
         if name == "swap" and (len(p) == 1 or p[-2] == "mem") and len(args) == 2 and "swap" not in self.fns:
             a = self.eval(args[0], env)
             b = self.eval(args[1], env)
@@ -2977,9 +2497,15 @@ class Exec:
         if name in ("Ok", "Some") and len(args) == 1 and len(p) == 1:
             return self.eval(args[0], env, want)
         if name == "Err" and len(p) == 1:
-            if self.sel_depth > 0:
-                return ResV(BV(1, const=1))  # on a data-dependent path: merged with the `Ok(())` of the other paths
             raise Unsupported("the function returns Err(…) on this input shape")
+        if len(p) == 2 and name in ("try_from", "from") and len(args) == 1 and p[0] in self.aliases and p[0] not in self.fns \
+                and self.resolve(("name", p[0], []))[0] == "arr":
+            # `Block::try_from(&data[a..]).unwrap()`: a copy of the slice, whose length must be that of the array type
+            at_ = self.norm_ty(("name", p[0], []))
+            v_ = self.deref_all(self.eval(args[0], env))
+            if not isinstance(v_, Arr) or len(v_.slots) != int(at_[2][1]):
+                raise Unsupported(f"{p[0]}::{name}: not a slice of length {at_[2][1]}")
+            return self.copy(v_)
         if len(p) >= 2 and p[-2] in WIDTH and name == "default":
             return BV(WIDTH[p[-2]], const=0)
         if len(p) >= 2 and name == "default" and p[-2] in self.aliases:
@@ -3006,8 +2532,6 @@ class Exec:
                         self.self_ty = saved
         if len(p) == 1 and name in self.fns and getattr(self.fns[name], "owner", None) and f"::{name}" in self.fns:
             name = f"::{name}"  # a bare call `f(…)` names the free function, not a method `T::f`
-        if len(p) >= 2 and p[-2] in ("super", "crate") and name in self.fns and getattr(self.fns[name], "owner", None) and f"::{name}" in self.fns:
-            name = f"::{name}"  # `super::f(…)` / `crate::f(…)`: a module-level function, not a method of the same name
         if name in self.fns:
             fn = self.fns[name]
             actual = []
@@ -3018,11 +2542,40 @@ class Exec:
             return self.inline(fn, actual)
         raise Unsupported(f"call to unknown function {'::'.join(p)}")
 
+    def byteorder_into(self, kind, w, order, args, env):
+        """byteorder's `T::read_uN_into(src: &[u8], dst: &mut [uN])` / `T::write_uN_into(src: &[uN], dst: &mut [u8])`
+        (both panic unless the byte slice is exactly N/8 times as long as the word slice)"""
+        src = self.deref_all(self.eval(args[0], env))
+        dst = self.deref_all(self.eval(args[1], env))
+        if not (isinstance(src, Arr) and isinstance(dst, Arr)):
+            raise Unsupported(f"{kind}_u{w}_into on non-arrays")
+        k = w // 8
+        byts, words = (src, dst) if kind == "read" else (dst, src)
+        if len(byts.slots) != k * len(words.slots):
+            raise Unsupported(f"{kind}_u{w}_into: slice lengths {len(src.slots)} and {len(dst.slots)} (the call panics)")
+        if kind == "read":
+            for i, d in enumerate(dst.slots):
+                bs = [self.scalar(s_.v) for s_ in src.slots[k * i:k * i + k]]
+                if any(b.w != 8 for b in bs):
+                    raise Unsupported("read_uN_into: source is not bytes")
+                if order == "le":
+                    bs = bs[::-1]
+                if all(b.const is not None for b in bs):
+                    d.v = BV(w, const=int.from_bytes(bytes(b.const for b in bs), "big"))
+                else:
+                    d.v = BV(w, "(" + " ++ ".join(b.par() for b in bs) + ")", atom=True)
+            return None
+        for i, s_ in enumerate(src.slots):
+            a = self.scalar(s_.v)
+            if a.w != w:
+                raise Unsupported(f"write_u{w}_into: source element of width {a.w}")
+            idxs = range(k - 1, -1, -1) if order == "be" else range(k)
+            for j, bi in enumerate(idxs):
+                dst.slots[k * i + j].v = (BV(8, const=(a.const >> (8 * bi)) & 0xFF) if a.const is not None
+                                          else BV(8, f"{a.par()}.extractLsb' {8 * bi} 8", atom=False))
+        return None
+
     def inline(self, fn, actual, keep_self=False):
-        if self.defs:
-            spec = self.defs.get(f"{fn.owner}::{fn.name}" if getattr(fn, "owner", None) else fn.name) or self.defs.get(fn.name)
-            if spec:
-                return self.call_def(fn, actual, spec)
         unbound = [g for g in getattr(fn, "cgen", []) if not isinstance(self.generics.get(g), int)]
         if unbound:
             if len(unbound) > 1:
@@ -3061,12 +2614,10 @@ class Exec:
         if tail is not None:
             self.want_ty[id(tail[1])] = fn.ret
         self.fn_stack.append(fn.name)
-        self.path_stack.append(getattr(fn, "path", None))
         try:
             return self.inline_(fn, actual, env, saved_self)
         finally:
             self.fn_stack.pop()
-            self.path_stack.pop()
             if tail is not None:
                 self.want_ty.pop(id(tail[1]), None)
             for g_, v_ in saved_tg.items():
@@ -3099,23 +2650,15 @@ class Exec:
                 v = self.copy(v.slot.v)
             self.bind_pat(pat, v, env)
         self.depth += 1
-        frame = Frame()
-        frame.env0 = dict(env)  # `roots` is computed from it when the first early return is recorded
-        rt_ = self.resolve(fn.ret) if fn.ret is not None else None
-        frame.ret_w = WIDTH.get(rt_[1]) if rt_ and rt_[0] == "name" else None
-        self.frames.append(frame)
         try:
             try:
                 r = self.run_block(fn.body, env)
             except Return as ret:
                 r = ret.v
-            if frame.early:
-                r = self.finish_frame(frame, r)
         finally:
-            self.frames.pop()
             self.depth -= 1
             self.self_ty = saved_self
-        if isinstance(r, BV) and r.const is None and not r.atom and not r.isbool:
+        if isinstance(r, BV) and r.const is None and not r.atom:
             r = self.bind(fn.name + "_r", r)  # name the result once: callers may use it several times
         return r
 
@@ -3224,13 +2767,7 @@ class Exec:
             elif k == "while":
                 n = 0
                 try:
-                    while True:
-                        wc_ = self.deref_all(self.eval(st[1], env))
-                        if isinstance(wc_, BoolV):
-                            self.while_data(st[1], st[2], env, wc_)
-                            break
-                        if not self.const_of(wc_):
-                            break
+                    while self.const_of(self.eval(st[1], env)):
                         n += 1
                         if n > 100000:
                             raise Unsupported("while does not terminate")
@@ -3308,12 +2845,7 @@ LEAN_KEYWORDS -= {"t", "e"}
 # ------------------------------------------------------------------------------------------------ driver
 def flatten(v, out, ex):
     v = ex.deref_all(v)
-    if isinstance(v, ResV):
-        b_ = v.is_err  # `Result<(), E>` decided by data: a `Bool`, `true` = `Err(_)`
-        if b_.const is None and not isinstance(b_, BoolV):
-            raise Unsupported("Result: the variant is not a bool")
-        out.append(b_ if b_.const is None else BoolV("true" if b_.const else "false", atom=True))
-    elif isinstance(v, BV):
+    if isinstance(v, BV):
         out.append(v)
     elif isinstance(v, Lanes):
         out.append(ex.bind("reg", ex.lanes_value(v)))
@@ -3331,7 +2863,7 @@ def flatten(v, out, ex):
         raise Unsupported(f"cannot return {type(v).__name__}")
 
 
-def translate(crate, path, fname, lean_name, lens=None, cfg=(), extra_files=(), doc="", packed=(), outs_only=(), pack_out=0, generics=None, self_ty=None, fields=None, types=None, fixed=None, noself=False, defs=None):
+def translate(crate, path, fname, lean_name, lens=None, cfg=(), extra_files=(), doc="", packed=(), outs_only=(), pack_out=0, generics=None, self_ty=None, fields=None, types=None, fixed=None, arrays=()):
     """returns (lean text, signature description) or raises Unsupported"""
     fns, consts, aliases, errs = find_functions(os.path.join(REPO, path), cfg)
     # siblings: every other source file of the crate (the file of the function itself takes precedence)
@@ -3360,16 +2892,12 @@ def translate(crate, path, fname, lean_name, lens=None, cfg=(), extra_files=(), 
     ex.cfg = cfg
     ex.lean_name = lean_name
     ex.field_consts = dict(fields or {})
+    ex.arrays = set(arrays)
     ex.generics = dict(generics or {})
     ex.self_ty = self_ty or getattr(fn, "owner", None)
-    ex.defs = dict(defs or {})
     inputs, env, muts = [], {}, []
     for pat, t in fn.params:
         pname = pat[1] if pat[0] == "pid" else (pat[1][1] if pat[0] == "pref" and pat[1][0] == "pid" else "p")
-        if noself and t[0] == "self":
-            # a method that does not read `self` (`Idea::mul`): no arguments for the fields; any access is Unsupported
-            env["self"] = Slot(Struct(ex.self_ty, {}))
-            continue
         rt = ex.resolve(t)
         if fixed and pname in fixed and rt[0] == "name" and rt[1] in WIDTH:
             # an integer parameter fixed to a constant for this target (e.g. RC2's `eff_key_len`)
@@ -3389,32 +2917,24 @@ def translate(crate, path, fname, lean_name, lens=None, cfg=(), extra_files=(), 
             continue
         ex.bind_pat(pat, v, env)
     ex.fn_stack.append(fn.name)
-    ex.frames[0].env0 = dict(env)
-    rt_ = ex.resolve(fn.ret) if fn.ret is not None else None
-    ex.frames[0].ret_w = WIDTH.get(rt_[1]) if rt_ and rt_[0] == "name" else None
-    ex.path_stack.append(getattr(fn, "path", None))
     if fn.body and fn.body[-1][0] == "expr" and not fn.body[-1][2] and fn.ret is not None:
         ex.want_ty[id(fn.body[-1][1])] = fn.ret
     try:
         r = ex.run_block(fn.body, env)
     except Return as ret:
         r = ret.v
-    if ex.frames[0].early:
-        r = ex.finish_frame(ex.frames[0], r)
     outs = []
     for m in muts:
         flatten(m, outs, ex)
     flatten(r, outs, ex)
     if not outs:
         raise Unsupported("function has no outputs")
-    if any(o.signed for o in outs):
-        raise Unsupported("signed integer output")
     if pack_out:
         if len(outs) % pack_out or any(o.w != 8 for o in outs):
             raise Unsupported("pack_out: outputs are not groups of bytes")
         outs = [BV(8 * pack_out, " ++ ".join(o.par() for o in outs[i:i + pack_out]), atom=False) for i in range(0, len(outs), pack_out)]
-    args = " ".join(f"({n} : BitVec {w})" for n, w in inputs)
-    rty = " × ".join("Bool" if o.isbool else f"BitVec {o.w}" for o in outs)
+    args = " ".join(f"({n} : {w})" if isinstance(w, str) else f"({n} : BitVec {w})" for n, w in inputs)
+    rty = " × ".join(f"BitVec {o.w}" for o in outs)
     res = "(" + ", ".join(o.lean() for o in outs) + ")" if len(outs) > 1 else outs[0].lean()
     cfgtxt = f" under cfg {list(cfg)}" if cfg else ""
     auxtxt = ""
@@ -3422,9 +2942,6 @@ def translate(crate, path, fname, lean_name, lens=None, cfg=(), extra_files=(), 
         rows = [", ".join(f"{v:#x}" for v in vals[i:i + 16]) for i in range(0, len(vals), 16)]
         auxtxt += (f"/-- a constant table computed by the source (const fn / associated const) and read with a data-dependent index in `{fname}` -/\n"
                    f"def {nm} : Array Nat := #[\n  " + ",\n  ".join(rows) + "]\n\n")
-    for nm, chunks in ex.aux_mem.items():
-        auxtxt += (f"/-- a constant byte array of the source read through data-dependent pointers in `{fname}`: chunks of 256 little-endian 128-bit words -/\n"
-                   f"def {nm} : List (Array Nat) := [{', '.join(chunks)}]\n\n")
     big = "set_option maxHeartbeats 4000000 in\n" if len(ex.lines) > 10000 else ""  # very long `let` chains exceed the default elaboration budget
     text = auxtxt + f"{big}/-- `{path}`: `fn {fname}`{cfgtxt}{doc} -/\ndef {lean_name} {args} : {rty} :=\n" + "\n".join(ex.lines) + ("\n" if ex.lines else "") + f"  {res}\n"
     return text, {"inputs": inputs, "outputs": [o.w for o in outs]}
@@ -3525,6 +3042,40 @@ CIPHER_TARGETS = CIPHER_TARGETS + [
 ] + [T("kuznyechik", "kuznyechik/src/utils.rs", "l_step", f"kuznyechik_l_step_{i}", packed=("msg",), pack_out=16, fixed={"i": i}, file="Kuznyechik_fn")
      for i in range(16)]
 
+# ciphers with a large key-dependent instance state: the S-boxes are passed as one `Array (BitVec 32)` (row-major)
+BF = dict(arrays=("self_s",))
+CIPHER_TARGETS = CIPHER_TARGETS + (
+    M("blowfish", "blowfish/src/lib.rs", "Blowfish", "blowfish_be", generics={"T": "BE"}, **BF)
+    + M("blowfish", "blowfish/src/lib.rs", "Blowfish", "blowfish_le", generics={"T": "LE"}, **BF)
+    + M("blowfish", "blowfish/src/lib.rs", "Blowfish", "blowfish", methods=("round_function", "encrypt", "decrypt"), **BF)
+    + M("blowfish", "blowfish/src/lib.rs", "Blowfish", "blowfish", methods=("bc_encrypt",), cfg=("feature=bcrypt",), **BF)
+)
+
+RC5_INST = [("u32", 12, 16), ("u16", 16, 8), ("u64", 24, 24), ("u8", 12, 4)]
+
+
+def rc5_targets(keys):
+    out = []
+    for w, r, b in RC5_INST:
+        kw = dict(generics={"W": w, "R": f"U{r}", "B": f"U{b}"})
+        pre = f"rc5_{w[1:]}_{r}_{b}"
+        if keys:
+            out += K("rc5", "rc5/src/lib.rs", "RC5::new", f"{pre}_new", lens={"#key": b}, **kw)
+            out += K("rc5", "rc5/src/lib.rs", "RC5::substitute_key", f"{pre}_substitute_key", **kw)
+            out += K("rc5", "rc5/src/lib.rs", "RC5::key_into_words", f"{pre}_key_into_words", **kw)
+            out += [T("rc5", "rc5/src/lib.rs", "RC5::initialize_expanded_key_table", f"{pre}_initialize_expanded_key_table", **kw),
+                    T("rc5", "rc5/src/lib.rs", "RC5::mix_in", f"{pre}_mix_in", **kw)]
+        else:
+            out += M("rc5", "rc5/src/lib.rs", "RC5", pre, **kw)
+    return out
+
+
+CIPHER_TARGETS = CIPHER_TARGETS + rc5_targets(False)
+# BelT wide block (STB 34.101.31 §6.2.4): the data length is a translation-time constant; data in / out as one BitVec
+CIPHER_TARGETS = CIPHER_TARGETS + [
+    T("belt-block", "belt-block/src/lib.rs", f, f"{f}_{n}", lens={"data": n}, packed=("data",), pack_out=n, file="Belt_wide")
+    for n in (32, 33, 47, 48, 64) for f in ("belt_wblock_enc", "belt_wblock_dec")]
+
 
 def generate(out_dir=OUT, targets=TARGETS, fname="Funcs.lean"):
     """writes Gen/Funcs.lean; returns the list of broken targets"""
@@ -3592,6 +3143,8 @@ KEY_TARGETS = KEY_TARGETS + (
            for n, e in ((8, 63), (16, 64), (16, 128), (5, 40))], [])
 )
 
+KEY_TARGETS = KEY_TARGETS + rc5_targets(True)
+
 AES_T = {"BatchBlocks": "[[u8; 16]; FIXN]", "Block": "[u8; 16]"}
 
 
@@ -3654,69 +3207,6 @@ AES_FILES["Aes_Armv8"] = intrinsics_targets(
     "inv_expanded_keys")
 
 
-# ---- functions with data-dependent `if` / `match` / `while` (select) -------------------------------------------------
-IDEA = "idea/src/lib.rs"
-TWO = "twofish/src/lib.rs"
-IDEA_DEFS = {"Idea::mul": ("idea_mul", ()), "Idea::add": ("idea_add", ())}
-TWO_DEFS = {"gf_mult": ("twofish_gf_mult", ()), "sbox": ("twofish_sbox_{i}", ("i",)),
-            "mds_column_mult": ("twofish_mds_column_mult_{column}", ("column",))}
-FN_FILES = {
-    "Fn_Idea": [T("idea", IDEA, "Idea::mul", "idea_mul", noself=True), T("idea", IDEA, "Idea::add", "idea_add", noself=True),
-                T("idea", IDEA, "Idea::add_inv", "idea_add_inv", noself=True)],
-    "Fn_Weak": (
-        [T("aes", "aes/src/lib.rs", "weak_key_test", f"aes_weak_key_test_{n}", generics={"N": n}, packed=("key",)) for n in (16, 24, 32)]
-        + [T("des", "des/src/lib.rs", "same_des_key"), T("des", "des/src/lib.rs", "::weak_key_test", "des_weak_key_test"),
-           T("des", "des/src/des.rs", "Des::weak_key_test", "des_des_weak_key_test", packed=("key",))]
-        + [T("des", "des/src/tdes.rs", f"{t}::weak_key_test", f"des_{t.lower()}_weak_key_test", packed=("key",))
-           for t in ["TdesEde3", "TdesEde2", "TdesEee3", "TdesEee2"]]),
-    "Fn_Twofish": (
-        [T("twofish", TWO, "gf_mult")]
-        + [T("twofish", TWO, "sbox", f"twofish_sbox_{i}", fixed={"i": i}, extra_files=("twofish/src/consts.rs",)) for i in (0, 1)]
-        + [T("twofish", TWO, "mds_column_mult", f"twofish_mds_column_mult_{c}", fixed={"column": c}, defs=TWO_DEFS) for c in range(4)]
-        + [T("twofish", TWO, "mds_mult", defs=TWO_DEFS),
-           T("twofish", TWO, "rs_mult", lens={"m": 8, "out": 4}, outs_only=("out",), defs=TWO_DEFS)]
-        + [T("twofish", TWO, "h", f"twofish_h_{k}_{o}", lens={"m": 8 * k}, packed=("m",), fixed={"k": k, "offset": o}, defs=TWO_DEFS)
-           for k in (2, 3, 4) for o in (0, 1)]),
-}
-AES_FILES.update(FN_FILES)
-CIPHER_TARGETS = CIPHER_TARGETS + M("idea", IDEA, "Idea", "idea", defs=IDEA_DEFS, imports=("BlockCiphers.Gen.Fn_Idea",))
-KEY_TARGETS = KEY_TARGETS + K("idea", IDEA, "Idea::expand_key", "idea_expand_key")
-# Twofish: `start` (0, 1, 2 for 32-, 24-, 16-byte keys) selects the q-boxes of `g_func`: one definition per value
-CIPHER_TARGETS = CIPHER_TARGETS + sum([M("twofish", TWO, "Twofish", f"twofish_s{st}", fields={"start": st}, defs=TWO_DEFS,
-                                         imports=("BlockCiphers.Gen.Fn_Twofish",)) for st in (0, 1, 2)], [])
-KEY_TARGETS = KEY_TARGETS + sum([K("twofish", TWO, "Twofish::new_from_slice", f"twofish_new_from_slice_{n}", lens={"key": n}, defs=TWO_DEFS,
-                                   imports=("BlockCiphers.Gen.Fn_Twofish",)) for n in (16, 24, 32)], [])
-
-
-def def_target(lean):
-    """the target that generates the definition `lean` (for calls emitted as calls, `defs=`)"""
-    for ts in [TARGETS, CIPHER_TARGETS, KEY_TARGETS] + list(AES_FILES.values()):
-        for t in ts:
-            if t["lean"] == lean:
-                return t
-    return None
-# Kuznyechik, SSE2 and NEON back ends (core::arch intrinsics as externs: Prelude/X86Intrinsics, ArmIntrinsics, KuzIntrinsics;
-# the fused tables are read through data-dependent pointers: `BC.Gen.memRead16`).  Round keys: one `BitVec 128` (register
-# image) each; blocks / keys: one `BitVec (8n)` each, byte 0 most significant; `*_par_blocks`: ParBlocksSize blocks in, out.
-KUZI = ("BlockCiphers.Prelude.KuzIntrinsics",)
-for _be in ("sse2", "neon"):
-    _bk, _md = f"kuznyechik/src/{_be}/backends.rs", f"kuznyechik/src/{_be}/mod.rs"
-    _kw = dict(file=f"Kuznyechik_{_be}", imports=KUZI)
-    CIPHER_TARGETS = CIPHER_TARGETS + [
-        T("kuznyechik", _bk, "EncBackend::encrypt_block", f"kuznyechik_{_be}_encrypt_block", **_kw),
-        T("kuznyechik", _bk, "DecBackend::decrypt_block", f"kuznyechik_{_be}_decrypt_block", **_kw),
-        T("kuznyechik", _bk, "EncBackend::encrypt_par_blocks", f"kuznyechik_{_be}_encrypt_par_blocks", pack_out=16, **_kw),
-        T("kuznyechik", _bk, "DecBackend::decrypt_par_blocks", f"kuznyechik_{_be}_decrypt_par_blocks", pack_out=16, **_kw),
-    ]
-    KEY_TARGETS = KEY_TARGETS + (
-        K("kuznyechik", _md, "EncKeys::new", f"kuznyechik_{_be}_enckeys_new", **_kw)
-        + K("kuznyechik", _bk, "inv_enc_keys", f"kuznyechik_{_be}_inv_enc_keys", **_kw)
-        # the conversions `From<EncKeys> for EncDecKeys` (outputs: enc[0..10], dec[0..10], declaration order) / `for DecKeys`
-        + K("kuznyechik", _md, "EncDecKeys::from", f"kuznyechik_{_be}_encdeckeys_from", **_kw)
-        + K("kuznyechik", _md, "DecKeys::from", f"kuznyechik_{_be}_deckeys_from", **_kw)
-    )
-
-
 def cipher_files():
     """whole-cipher targets grouped per crate: Gen/Cipher_<Crate>.lean (separate modules build in parallel)"""
     groups = {}
@@ -3740,9 +3230,12 @@ def _src_hash(crates):
     return h.hexdigest()
 
 
-def generate_all(out_dir=OUT):
-    """all generated files; a file is regenerated only when the sources of its crate(s) or this translator changed
-    (hashes in Gen/.funcs_cache.json), so an unchanged tree costs a few hash computations per run"""
+ONLY = ("Cipher_Blowfish.lean", "Cipher_Rc5.lean", "Keys_Rc5.lean", "Cipher_Belt_wide.lean")
+
+
+def generate_all(out_dir=OUT, only=ONLY):
+    """FORK of funcs.py (see the note at the top of this file): generates only the files in `only`
+    (hashes in Gen/.funcs_big_cache.json)"""
     import json
     jobs = [("Funcs.lean", TARGETS)]
     for crate, ts in cipher_files().items():
@@ -3754,13 +3247,15 @@ def generate_all(out_dir=OUT):
         jobs.append((f"Keys_{crate}.lean", ts))
     for fname, ts in AES_FILES.items():
         jobs.append((f"{fname}.lean", ts))
-    cpath = os.path.join(out_dir, ".funcs_cache.json")
+    cpath = os.path.join(out_dir, ".funcs_big_cache.json")
     try:
         cache = json.load(open(cpath))
     except (OSError, ValueError):
         cache = {}
     broken = []
     for fname, ts in jobs:
+        if only is not None and fname not in only:
+            continue
         hsh = _src_hash([t["crate"] for t in ts])
         ent = cache.get(fname)
         if ent and ent.get("hash") == hsh and os.path.exists(os.path.join(out_dir, fname)):
